@@ -17,19 +17,21 @@
     edit distance of the two intervals is <= reported errors <= threshold: the occurrence is genuine
     and within tolerance, for all eight classes, all 16 flag sets, every read.
 
-    And (Proofs/AlignOpt.v): for every adapter class whose aligner may stop anywhere in the read
-    (all classes except the anchored and the non-internal 3' adapters), with indels enabled or disabled, the
-    reported errors are EXACTLY the edit distance of the two reported intervals: achieved by an
-    alignment, and no alignment of the two intervals is cheaper (lower-bound invariant on every DP
-    cell over all admissible start positions; diagonal monotonicity of the edit distance justifies
-    the Ukkonen cut-off).
+    And (Proofs/AlignOpt.v, AlignOptTail.v): for EVERY adapter class that uses the aligner, with indels
+    enabled (indel cost 1) or disabled (indel cost 100000), the reported errors are EXACTLY the edit
+    distance of the two reported intervals: achieved by an alignment, and no alignment of the two
+    intervals is cheaper.  Lower-bound invariant on every DP cell over all admissible start positions;
+    diagonal monotonicity of the edit distance justifies the Ukkonen cut-off; for the two classes that
+    must end at the end of the read (SuffixAdapter with indels, NonInternalBackAdapter) the DP starts in
+    column max(0, n-m-k) with over-estimated costs for alignments that begin earlier, and a further
+    invariant shows that such alignments cost more than k and are never accepted.
+    With C01_comparer_exact (Hamming distance for the comparers) the error clause of C01 is a theorem
+    for all eight classes.
 
-    NOT proved here (C01 remains partial in this one respect): the lower bound for the two classes
-    that must end at the end of the read (SuffixAdapter with indels, NonInternalBackAdapter: there the
-    DP starts in a later column with over-estimated costs, exact only for alignments within the error
-    budget).  Covered by the correspondence plus the textbook-distance oracle. *)
+    What remains outside the theorems: the float comparison cost <= L*rate is a table thr[L] computed by
+    CPython with the code's own expression; C int overflow is not modelled. *)
 From Coq Require Import ZArith List Bool.
-From CV Require Import Generated.Flags Model.Align Model.Adapters Proofs.AlignProofs Proofs.AdapterProofs Proofs.AlignDist Proofs.AlignOpt.
+From CV Require Import Generated.Flags Model.Align Model.Adapters Proofs.AlignProofs Proofs.AdapterProofs Proofs.AlignDist Proofs.AlignOpt Proofs.AlignOptTail.
 Import ListNotations.
 Open Scope Z_scope.
 
@@ -76,19 +78,28 @@ Theorem C01_errors_achieved : forall thr ad read mt,
 Proof. exact match_to_dist. Qed.
 Print Assumptions C01_errors_achieved.
 
-(** the reported errors ARE the edit distance of the reported intervals (achieved, and minimal),
-    with indels enabled (indel cost 1) and disabled (indel cost 100000) *)
+(** the reported errors ARE the edit distance of the reported intervals (achieved, and minimal):
+    every adapter class that uses the aligner, indels enabled (indel cost 1) or disabled (100000) *)
 Theorem C01_errors_exact : forall thr ad read mt,
   uses_comparer ad = false ->
-  match a_type ad with NonInternalBack | Suffix => False | _ => True end ->
   0 <= thr (zlen (a_seq ad)) -> (forall L, thr L <= thr (zlen (a_seq ad))) ->
   match_to thr ad read = Some mt ->
   let A := zslice (loc_s1 (ad_cfg ad) (a_wq ad) (a_seq ad)) (astart mt) (astop mt) in
   let B := zslice (loc_s2 (ad_cfg ad) (a_wq ad) (ad_query ad read)) (rstart mt) (rstop mt) in
   ed (loc_eqc (ad_cfg ad) (a_wq ad)) (indel_cost (ad_cfg ad)) A B (merrors mt) /\
   forall c, ed (loc_eqc (ad_cfg ad) (a_wq ad)) (indel_cost (ad_cfg ad)) A B c -> merrors mt <= c.
-Proof. exact match_to_exact. Qed.
+Proof. exact match_to_exact_all. Qed.
 Print Assumptions C01_errors_exact.
+
+(** ... at the level of Aligner.locate: flag sets that must end at the end of the query and may start
+    anywhere in it but not inside the reference *)
+Theorem C01_locate_errors_minimal_tail : forall thr cfg wq ref query rs re qs qe sc e c,
+  1 <= indel_cost cfg -> start_in_ref cfg = false -> start_in_query cfg = true -> stop_in_query cfg = false ->
+  0 <= thr (zlen ref) -> (forall L, thr L <= thr (zlen ref)) ->
+  locate thr cfg wq ref query = Some (rs, re, qs, qe, sc, e) ->
+  ed (loc_eqc cfg wq) (indel_cost cfg) (zslice (loc_s1 cfg wq ref) rs re) (zslice (loc_s2 cfg wq query) qs qe) c -> e <= c.
+Proof. exact locate_opt_tail. Qed.
+Print Assumptions C01_locate_errors_minimal_tail.
 
 (** ... at the level of Aligner.locate: every flag set that may stop anywhere in the query *)
 Theorem C01_locate_errors_minimal : forall thr cfg wq ref query rs re qs qe sc e c,
